@@ -110,6 +110,33 @@ def gen_vocab(tier, rnd):
             lines.append('P %s #unknownword=%s' % (hx(in_ctx(ctx, m)), hx(m)))
         lines.append('P %s #unknownword=%s' % (hx(m + ' 5'), hx(m)))
         lines.append('P %s #unknownword=%s' % (hx(m + ' x y'), hx(m)))
+    # source dictionary: every literal of the current source in every role an argument can play
+    import srcdict, re as _re
+    atoms = srcdict.atoms()
+    for a in atoms:
+        # an atom at which a token can start (a keyword, punctuation, the positional placeholder) glued behind an
+        # argument is two tokens, accepted by design (DESIGN.md 9.4): compared with the model only, not with the
+        # argument language
+        tokenish = a in allkw or a == 'nope' or bool(_re.match(r'^-[A-Za-z]', a)) or a[0] in '(),!'
+        for kind, kws in srcdict.REPRESENTATIVE.items():
+            for kw in kws:
+                for arg in srcdict.arg_variants(a):
+                    if tokenish or 'nope' in arg:
+                        lines.append('P %s' % hx(kw + ' ' + arg))
+                    else:
+                        lines.append(prim_request('P', kw, [arg], 'alone'))
+        for arg in srcdict.format_variants(a):
+            lines.append(prim_request('P', '-printf', [arg], 'alone'))
+            lines.append(prim_request('P', '-fprintf', ['out', arg], 'alone'))
+        if a not in allkw:
+            if _re.match(r'^-[A-Za-z][A-Za-z0-9_-]*$', a) and not any(a.startswith(k) for k in allkw if k.startswith('-')):
+                for ctx in ['alone', 'after', 'before']:
+                    lines.append('P %s #unknownword=%s' % (hx(in_ctx(ctx, a)), hx(a)))
+                lines.append('P %s #unknownword=%s' % (hx(a + ' 5'), hx(a)))
+            else:
+                lines.append('P %s' % hx(a))
+                lines.append('P %s' % hx('-true ' + a))
+                lines.append('P %s' % hx(a + ' x'))
     # unknown words
     for w in ['bogus', '-zzz', '@@', 'foo.bar', '-Name', '-PRINT', '--print', '-lname']:
         for ctx in ['alone', 'after', 'before']:
@@ -311,7 +338,12 @@ def gen_format(tier, rnd):
             lines.append(prim_request('P', '-printf', ["'" + ctxs + "'"], 'alone'))
     for _ in range(10000 if tier == 'quick' else 100000):
         lines.append(prim_request('P', '-printf', ["'" + rand_format_text(rnd, 20) + "'"], 'alone'))
-    return lines, {'rule': 'all strings of length 1..%d over the 16-symbol alphabet %s (exhaustive), every documented directive and escape alone and embedded, random format strings up to ~60 characters; non-trivial = every request'
+    # source dictionary: every literal of the current source as directive letter, escape letter, selector, field name
+    import srcdict
+    for a in srcdict.atoms():
+        for arg in srcdict.format_variants(a):
+            lines.append(prim_request('P', '-printf', [arg], 'alone'))
+    return lines, {'rule': 'every string/character literal of the current source as directive, escape, selector and field name; all strings of length 1..%d over the 16-symbol alphabet %s (exhaustive), every documented directive and escape alone and embedded, random format strings up to ~60 characters; non-trivial = every request'
                    % (maxlen, ' '.join(FMT_ALPHABET)), 'exhaustive': False, 'streams': {'format': len(lines)}}
 
 
@@ -679,6 +711,15 @@ def gen_totality(tier, rnd):
     for s in ['-maxdepth 3', '-mindepth 3', '-perm 77777', '-perm 77777777777', "-printf '\\777777'", 'nope', '-size 18446744073709551615w',
               '-perm 0777x', '-nouser', '-fprint', '-threads', "-name 'a\"b'", '-name a\\', "-printf '\\c'", "-printf '~a'", '-print-file-fid -fprint x']:
         add(s)
+    # source dictionary: every literal of the current source alone, after every argument-taking keyword, inside formats
+    import srcdict
+    for a in srcdict.atoms():
+        add(a); add('-true ' + a); add(a + ' 5'); add(a + ' x y')
+        for kw, kind in KW.items():
+            if kind != 'none':
+                add(kw + ' ' + a); add(kw + ' 5' + a); add(kw + ' +5' + a)
+        for arg in srcdict.format_variants(a):
+            add('-printf ' + arg)
     # long offending words (error rendering must not depend on where a byte threshold falls in the word)
     for w in LONG_BAD:
         for tmpl in ['-uid %s', '-%s', '%s', '-size %s', '-perm %s', '-name ok -type %s', "-size '%s tail'", '-mtime +%s', '-threads %s', '-true -o ( -gid %s )',
